@@ -473,11 +473,14 @@ def expand_extract(d, log, meta, unit_path):
         raise ExtractError("%s:%d: item `%s` not found in %s (lost anchor)"
                            % (unit_path, d.lineno, d.item, d.path))
     kw = norm(d.item).split(" ", 1)[0]
+    top = [c for c in cands if c[3] == 0]
+    if len(cands) > 1 and len(top) >= 1:
+        cands = top
     meta["items"].append(dict(path=d.path, item=d.item))
     if kw != "impl":
         if len(cands) != 1:
             raise ExtractError("%s: item `%s` is ambiguous (%d)" % (d.path, d.item, len(cands)))
-        s, e, ki = cands[0]
+        s, e, ki, _dp = cands[0]
         where = "%s:%d" % (d.path, X._line_of(src, toks[s].pos))
         itoks = X.rewrite(toks[s:e + 1], log, where)
         text = _rename(untok(itoks), d.renames, log, where)
@@ -498,7 +501,7 @@ def expand_extract(d, log, meta, unit_path):
     header_text = None
     found = set()
     is_trait_impl = " for " in (" " + norm(d.item) + " ")
-    for s, e, ki in cands:
+    for s, e, ki, _dp in cands:
         hdr, bi = X._impl_header(toks, ki)
         be = match_close(toks, bi)
         for k2, ki2, s2, e2 in X.iter_items(toks, bi + 1, be):
